@@ -1,3 +1,4 @@
+mod alloc;
 mod checks;
 mod conv;
 mod driver;
@@ -11,6 +12,9 @@ use std::collections::BTreeMap;
 use std::path::{Path, PathBuf};
 use std::process::{Command, Stdio};
 use std::time::Instant;
+
+#[global_allocator]
+static GLOBAL: alloc::Counting = alloc::Counting;
 
 const VERIF: &str = "/verif";
 
@@ -40,6 +44,7 @@ fn main() {
             let a: Vec<String> = args[2..].to_vec();
             let h = std::thread::Builder::new().stack_size(256 << 20).spawn(move || worker(&a)).unwrap();
             if h.join().is_err() {
+                eprintln!("HARNESS-PANIC: {}", take_panics().join(" | "));
                 std::process::exit(101);
             }
         }
@@ -233,7 +238,10 @@ fn parent(id: &str, tier: Tier) {
                 let jcase: Option<Json> = if journal.is_empty() {
                     None
                 } else {
-                    std::fs::read(&journal).ok().and_then(|b| serde_json::from_slice(&b).ok())
+                    std::fs::read(&journal).ok().and_then(|b| {
+                        let first = b.split(|c| *c == b'\n').next().unwrap_or(&[]).to_vec();
+                        serde_json::from_slice(&first).ok()
+                    })
                 };
                 match jcase {
                     Some(j) if meta.crashy => {
